@@ -18,7 +18,7 @@ func init() {
 		Decides: "the snapshot transition functions (copyAllTo / merge / remove in measure, stream, trace, sidx) take a reference on every part they carry over, start the new snapshot with one reference, and in remove every part is either carried over (with a reference) or marked for removal — none silently vanishes or is carried without a pin; " +
 			"the table's snapshot is replaced only by the introduce* functions, which are called only from the table's single introducer loop; every block loaded during a measure/stream merge has its conflicting tag columns renamed before it is used; part-level and primary-block time ranges written by the block writers are running min/max of the blocks they cover (shared with C08); wherever two rows' versions are compared to resolve a duplicate timestamp (mergeTwoBlocks, queryResult.Less, dataPoints.Less) the versions are read at exactly the indices whose timestamps were found equal.",
 		NotDecided: "that the merged part's contents equal the version-resolved union of its inputs, block-split boundaries, which of two versions wins, tag-set handling of the fast append path, what a query observes during maintenance.",
-		Technique:  "dominance of reference acquisition over carry-over appends, per-iteration path search, who-may-call confinement of the snapshot writer, CFG must-follow",
+		Technique:  "dominance of reference acquisition over carry-over appends, per-iteration path search, who-may-call confinement of the snapshot writer, CFG must-follow; canonical symbolic expression equality of indices under a dominating equality",
 		Run:        runC03,
 	})
 }
